@@ -26,6 +26,8 @@ from .errors import CompilerLimitError
 
 # CPython refuses more than this many statically nested blocks (for loops) in one function
 _MAX_NESTED_BLOCKS = 20
+# ... and expressions with this many or more nested parentheses/brackets
+_MAX_NESTED_PARENS = 200
 
 class YPCodeExpr:
     def __init__(self,expr):
@@ -423,6 +425,7 @@ class YPPythonCodeGenerator:
         self.context = context
         self.loop_level = 0
         self.block_level = 0
+        self.paren_level = 0
         self.current_function = ''
         self.tabwidth = 2
         self.indentation = 0
@@ -488,9 +491,18 @@ class YPPythonCodeGenerator:
         return self.lines(s, code, break_code)
     def generate_call(self,call):
         # TODO: check if functionname is a reserved word
+        self._enter_parens()
         args = ",".join([ a.generate(self) for a in call.args ])
+        self._leave_parens()
         s = "%s(%s)" % (call.func,args)
         return s
+    def _enter_parens(self):
+        self.paren_level += 1
+        if self.paren_level >= _MAX_NESTED_PARENS:
+            raise CompilerLimitError(getattr(self.context, 'current_source_file', ''),
+                f'clause of {self.current_function} is too large: term nested too deeply')
+    def _leave_parens(self):
+        self.paren_level -= 1
     def generate_yield_false(self,yf):
         return self.l("yield False")
     def generate_yield_true(self,yt):
@@ -540,7 +552,10 @@ class YPPythonCodeGenerator:
     def generate_expr(self,expr):
         return repr(expr.expr)
     def generate_list(self,expr):
-        return "[" + ",".join( [ v.generate(self) for v in expr.l ] ) + "]"
+        self._enter_parens()
+        items = ",".join( [ v.generate(self) for v in expr.l ] )
+        self._leave_parens()
+        return "[" + items + "]"
     def generate_value(self,expr):
         return expr.val
     def _get_loop_var(self):
